@@ -45,6 +45,9 @@ func checkC18(c *Ctx, r *Report) {
 
 	// R18b
 	intermediateMetaRule(c, r)
+	// the front-ends agree because every decoder output (map[string]interface{} from JSON/HJSON, map[interface{}]interface{}
+	// from YAML) goes through the same per-name store: no normalize function has a path of its own for one representation
+	namedStoreRule(c, r, "R18h")
 	r.Rule("R18b", "source plumbing: MetaData stores the address of its Meta copy into options.meta; value constructors on normalize* paths receive opts.meta; error constructors pass their *Meta on towards messageMeta", 20)
 	metaDataRule(c, r)
 	metaReachesValues(c, r, "R18b")
